@@ -395,3 +395,88 @@ example : (frun .reversed portsCfg portsCfg (finit portsCfg portsCfg) portsRun).
   decide
 
 end Remoc.Link
+
+/-! ### `forward_preserves_wiring`, with the forwarding hops derived from the forwarder model -/
+
+namespace Remoc.Wiring
+
+/-- **The forwarder model performs exactly the hop the wiring model assumes.**  For a batch recorded in a
+reachable state of the forwarder model (as coded) and the received requests `reqs` (ids as received):
+the batch sent on and the pipes of the spawned pairs are `forwardHop reqs fresh` for the ports `fresh` the
+forwarder allocated, and these are pairwise distinct and as many as the requests — the hypotheses
+`forward_preserves_wiring` makes about a hop. -/
+theorem forward_model_hop (ca cb : Link.Cfg) (f : Link.Fwd) (h : Link.FReachable .asCoded ca cb f)
+    (B : Link.Batch) (hB : B ∈ f.batches) (reqs : List Req) (hr : reqs.map (·.id) = B.ids) :
+    hopOfBatch B reqs = forwardHop reqs (B.ports.map (·.port)) ∧
+    (B.ports.map (·.port)).Nodup ∧ (B.ports.map (·.port)).length = reqs.length := by
+  obtain ⟨hids, hnd, hpairs, _⟩ := (Link.fport_reachable .asCoded ca cb f h).batches B hB
+  have hlen : B.ports.length = reqs.length := by
+    have := congrArg List.length (hids.trans hr.symm); simpa using this
+  have hil : B.ids.length = B.ports.length := by rw [← hids]; simp
+  refine ⟨?_, hnd, by simpa using hlen⟩
+  simp only [hopOfBatch, forwardHop, Hop.mk.injEq]
+  constructor
+  · exact (out_zip B.ports reqs (hids.trans hr.symm)).symm
+  · rw [hpairs]
+    simp only [Link.pairUp]
+    rw [pipes_pairFrom 0 B.ids B.ports reqs hil (by simpa using hlen.symm)]
+    simp
+
+/-- batches recorded along a chain of forwarders: each one received the ids the previous one's `connect` carried -/
+def chained : List Nat → List Link.Batch → Prop
+  | _, [] => True
+  | ids, B :: rest => B.ids = ids ∧ chained (B.ports.map (·.id)) rest
+
+theorem chained_ids (ids : List Nat) (hops : List Link.Batch)
+    (hmodel : ∀ B ∈ hops, B.ports.map (·.id) = B.ids) (hch : chained ids hops) : ∀ B ∈ hops, B.ids = ids := by
+  induction hops generalizing ids with
+  | nil => intro B hB; simp at hB
+  | cons B0 rest ih =>
+    intro B hB
+    obtain ⟨h0, hrest⟩ := hch
+    simp only [List.mem_cons] at hB
+    rcases hB with rfl | hB
+    · exact h0
+    · have := ih (B0.ports.map (·.id)) (fun B hB => hmodel B (by simp [hB])) hrest B hB
+      rw [this, hmodel B0 (by simp), h0]
+
+/-- **`wiring_bijective`, forwarded — derived from the forwarder model.**  Along any chain of `chmux::forward`
+hops, each a batch recorded in a reachable state of the forwarder model and each receiving what its predecessor
+sent, the received half that carries `p` is connected — through the pipes of the forwarders — to exactly the
+half that was serialized with `p`.  Freshness, distinctness and id preservation of every hop are consequences
+of the model (`forward_requests_paired`), no longer hypotheses. -/
+theorem forward_preserves_wiring_of_model (sv : List (Half × Port)) (hnd : (sv.map (·.2)).Nodup)
+    (hops : List Link.Batch)
+    (hmodel : ∀ B ∈ hops, ∃ ca cb f, Link.FReachable .asCoded ca cb f ∧ B ∈ f.batches)
+    (hch : chained (sv.map (·.2)) hops) (h : Half) (p : Port) (hm : (h, p) ∈ sv) :
+    connectedVia sv (hops.map (fun B => B.ports.map (·.port))) p = some h := by
+  have hok : ∀ B ∈ hops, B.ports.map (·.id) = B.ids ∧ (B.ports.map (·.port)).Nodup := by
+    intro B hB
+    obtain ⟨ca, cb, f, hr, hBm⟩ := hmodel B hB
+    obtain ⟨h1, h2, _, _⟩ := (Link.fport_reachable .asCoded ca cb f hr).batches B hBm
+    exact ⟨h1, h2⟩
+  have hids := chained_ids _ hops (fun B hB => (hok B hB).1) hch
+  apply forward_preserves_wiring sv hnd _ _ h p hm
+  intro fr hfr
+  obtain ⟨B, hB, rfl⟩ := List.mem_map.mp hfr
+  refine ⟨(hok B hB).2, ?_⟩
+  have := congrArg List.length ((hok B hB).1.trans (hids B hB))
+  simp only [List.length_map] at this ⊢
+  omega
+
+/-- seeded bug (a) in wiring terms: two halves on ports 10 and 20 are forwarded on the fresh ports 5 and 6.  As
+coded, port 5 (which carries id 10 to the far endpoint) is piped to request port 10; with the reversed pairing it is
+piped to request port 20: the far half `10` ends up connected to the half serialized with `20`. -/
+def svAB : List (Half × Port) := [({ chan := 1 }, 10), ({ chan := 2 }, 20)]
+def batchOf (v : Link.Pairing) : Link.Batch :=
+  { ids := [10, 20], ports := [⟨5, 10⟩, ⟨6, 20⟩], pairs := Link.pairUp v [10, 20] [⟨5, 10⟩, ⟨6, 20⟩] }
+
+example : hopOfBatch (batchOf .asCoded) (batch svAB) = forwardHop (batch svAB) [5, 6] ∧
+    upstream (hopOfBatch (batchOf .asCoded) (batch svAB)) 5 = some 10 ∧
+    ownerOf svAB 10 = some { chan := 1 } := by decide
+
+example : upstream (hopOfBatch (batchOf .reversed) (batch svAB)) 5 = some 20 ∧
+    ownerOf svAB 20 = some { chan := 2 } ∧
+    hopOfBatch (batchOf .reversed) (batch svAB) ≠ forwardHop (batch svAB) [5, 6] := by decide
+
+end Remoc.Wiring
